@@ -98,8 +98,22 @@ SYMRT_HARNESS(C06_incremental) {
   Prob p = make_problem(n, m, B, Bb, Bc, symrt::param("ints", 0) != 0);
   unsigned first = symrt::choose("first", m);      // rows present at the first solve
   int change = symrt::choose("change", 4);        // 0: only rows, 1: also new objective, 2: also flip mode, 3: also mark integers afterwards
-  MIP_Problem mip(n);
-  for (unsigned i = 0; i < first; ++i) mip.add_constraint(p.con(p.rows[i]));
+  bool grow = symrt::param("grow", 0) && n >= 2 && symrt::flag("grow");   // the last variable is added after the first solve
+  MIP_Problem mip(grow ? n - 1 : n);
+  std::vector<bool> fed(p.rows.size(), false);
+  for (unsigned i = 0; i < first; ++i) { if (grow && p.rows[i].a[n - 1] != 0) continue; if (grow) { Linear_Expression e; for (unsigned j = 0; j + 1 < n; ++j) e += p.rows[i].a[j] * Variable(j); e += p.rows[i].b; mip.add_constraint(p.rows[i].kind == 0 ? Constraint(e >= 0) : p.rows[i].kind == 1 ? Constraint(e == 0) : Constraint(e <= 0)); } else mip.add_constraint(p.con(p.rows[i])); fed[i] = true; }
+  if (grow) {
+    // first solve on the smaller space (objective restricted to the old variables), then embed and add the rest
+    { Linear_Expression o; for (unsigned j = 0; j + 1 < n; ++j) o += p.c[j] * Variable(j); o += p.c0; mip.set_objective_function(o); } mip.set_optimization_mode(p.maximize ? MAXIMIZATION : MINIMIZATION);
+    mip.set_control_parameter(pricing(symrt::param("pricing", 0)));
+    int warm = symrt::choose("gwarm", 2); if (warm == 0) (void) mip.solve(); else (void) mip.is_satisfiable();
+    mip.add_space_dimensions_and_embed(1);
+    for (unsigned i = 0; i < p.rows.size(); ++i) if (!fed[i]) mip.add_constraint(p.con(p.rows[i]));
+    mip.set_objective_function(p.obj());
+    Variables_Set iv; for (unsigned j = 0; j < n; ++j) if (p.is_int[j]) iv.insert(Variable(j)); if (!iv.empty()) mip.add_to_integer_space_dimensions(iv);
+    check_answers(mip, p, p.rows.size(), "C06 incremental (add_space_dimensions_and_embed)");
+    return;
+  }
   Prob p0 = p;
   if (change == 1) { p0.c.assign(n, mpz_class(0)); p0.c[0] = 1; p0.c0 = 0; }
   if (change == 2) p0.maximize = !p.maximize;
